@@ -21,7 +21,7 @@ from gen import rand_unitary, rand_kraus, mj
 SETUP = {"envs": [{"fock": 1, "pol": "R", "fdim": 3}, {"fock": 0, "pol": "H", "fdim": 2}],
          "customs": [{"dim": 3, "label": 1}], "composites": [["e0", "e1", "c0"]]}
 DIM = {0: 3, 1: 2, 2: 2, 3: 2, 4: 3}
-LOCS = ["own", "env-ff", "env-pf", "ps0", "ps1", "ps2"]
+LOCS = ["own", "env-ff", "env-pf", "ps0", "ps1", "ps2", "ps-from-env-pf"]
 LEVELS = ["vector", "matrix-pure", "matrix-mixed"]
 
 
@@ -49,6 +49,15 @@ def prepare(rs, t, loc, level):
             steps.append({"kind": "struct", "what": "env_reorder", "env": 0, "targets": [1, 0]})
         else:
             steps.append({"kind": "struct", "what": "env_reorder", "env": 0, "targets": [0, 1]})
+    elif loc == "ps-from-env-pf":
+        # the envelope is combined, stored polarization first, and only then absorbed into a product space
+        if t not in (0, 1):
+            return None, None
+        partner = 1 - t
+        steps.append({"kind": "struct", "what": "env_combine", "env": 0})
+        steps.append({"kind": "kraus", "targets": [0, 1], "entry": "env", "ops": [mj(rand_unitary(rs, 6))]})
+        steps.append({"kind": "struct", "what": "env_reorder", "env": 0, "targets": [1, 0]})
+        steps.append({"kind": "struct", "what": "ce_combine", "h": 0, "targets": [t, 3], "nocheck": True})
     elif loc in ("ps0", "ps1", "ps2"):
         partner = 3 if t != 3 else 1
         if loc == "ps2":
@@ -61,7 +70,7 @@ def prepare(rs, t, loc, level):
     if level == "matrix-pure":
         steps.insert(0, {"kind": "struct", "what": "set_contraction", "on": False})
         en = "state" if loc == "own" else "env" if loc.startswith("env") else "ce"
-        st = {"kind": "struct", "what": "expand", "entry": en, "targets": [t]}
+        st = {"kind": "struct", "what": "expand", "entry": en, "targets": [t], "nocheck": loc == "ps-from-env-pf"}
         if en == "ce":
             st["h"] = 0
         steps.append(st)
@@ -202,7 +211,8 @@ def pair_calls(rs, prop, a, b, loc):
         for g in ("CX", "CZ", "SWAP"):
             out.append(({"kind": "op", "targets": [a, b], "gate": g}, ["ce"]))
     if prop in ("C03", "C11") and both_fock:
-        out.append(({"kind": "op", "targets": [a, b], "gate": "BS", "params": {"eta": 0.7}}, ["ce"]))
+        for eta in (0.7, -0.9, 3.6):
+            out.append(({"kind": "op", "targets": [a, b], "gate": "BS", "params": {"eta": eta}}, ["ce"]))
     if prop == "C03" and not (a in (0, 2) or b in (0, 2)):
         fa = rand_unitary(rs, DIM[a])
         fb = rs.randn(DIM[b], DIM[b]) + 1j * rs.randn(DIM[b], DIM[b])
@@ -417,6 +427,67 @@ def special_programs(prop):
                     steps.append({"kind": "struct", "what": "expand", "entry": "state", "targets": [0]})
                 steps.append({"kind": "op", "targets": [0], "entry": "state", "gate": "Displace", "params": {"alpha_re": a, "alpha_im": 0.0}})
                 progs.append({"seed": 7, "contraction": False, "focus": prop, "cell": f"op:Displace|state|t0|own|{level}|n={n}", "setup": setup, "steps": steps})
+    if prop in ("C10", "C17"):
+        # (|0> + |2> - |3>)/sqrt3 : the amplitudes that a shrink to two levels would cut cancel when summed
+        v = np.array([1, 0, 1, -1], dtype=complex) / np.sqrt(3)
+        e0 = np.array([1, 0, 0, 0], dtype=complex)
+        u_ = (e0 - v) / np.linalg.norm(e0 - v)
+        Hh = np.eye(4) - 2 * np.outer(u_, u_.conj())  # Householder reflection: H e0 = v
+        setup = {"envs": [{"fock": 0, "pol": "H", "fdim": 4}], "customs": [], "composites": [["e0"]]}
+        for en in ("state", "env", "ce"):
+            for level in ("vector", "matrix"):
+                steps = [{"kind": "struct", "what": "set_contraction", "on": False},
+                         {"kind": "op", "targets": [0], "entry": "state", "gate": "FockCustom", "U": mj(Hh)}]
+                if level == "matrix":
+                    steps.append({"kind": "struct", "what": "expand", "entry": "state", "targets": [0]})
+                steps.append(with_entry({"kind": "invalid", "what": "shrink_below_support", "targets": [0], "dim": 2}, en))
+                progs.append({"seed": 7, "contraction": False, "focus": prop, "cell": f"invalid:shrink-cancelling-sum|{en}|t0|own|{level}", "setup": setup, "steps": steps})
+    if prop == "C17":
+        # a composite-level request naming a live subsystem of a mixed product space *followed by* a destroyed one
+        rs = np.random.RandomState(9300)
+        for c in ("combine", "kraus", "trace_out"):
+            steps = [superpose(rs, 1), superpose(rs, 3),
+                     {"kind": "struct", "what": "ce_combine", "h": 0, "targets": [1, 3]},
+                     {"kind": "op", "gate": "CX", "targets": [1, 3], "entry": "ce", "h": 0},
+                     {"kind": "kraus", "targets": [3], "entry": "state", "ops": [mj(K) for K in rand_kraus(rs, 2, 2)]},
+                     {"kind": "measure", "targets": [2], "entry": "state", "sep": True, "destructive": True},
+                     {"kind": "invalid", "what": "destroyed_operand", "h": 0, "targets": [1, 2], "call": c},
+                     {"kind": "op", "gate": "CZ", "targets": [3, 1], "entry": "ce", "h": 0}]
+            progs.append({"seed": 7, "contraction": True, "focus": prop, "cell": f"invalid:destroyed_operand:{c}|ce|t1+dead2|ps|matrix-mixed", "setup": SETUP, "steps": steps})
+    if prop in ("C04", "C05", "C06", "C09"):
+        # three members at density-matrix level whose storage was rotated cyclically by an earlier request
+        rs = np.random.RandomState(9100 + sum(map(ord, prop)))
+        for order in ((3, 4, 1), (4, 1, 3)):
+            steps = [superpose(rs, t) for t in (1, 3, 4)]
+            steps.append({"kind": "struct", "what": "ce_combine", "h": 0, "targets": [1, 3, 4]})
+            steps.append({"kind": "kraus", "targets": [1, 3, 4], "entry": "ce", "h": 0, "ops": [mj(rand_unitary(rs, 12))]})
+            steps.append({"kind": "kraus", "targets": [4], "entry": "state", "ops": [mj(K) for K in rand_kraus(rs, 3, 2)]})
+            # first a known storage order, then a cyclic rotation of it (a permutation that is not its own inverse)
+            steps.append({"kind": "struct", "what": "ce_reorder", "h": 0, "targets": [1, 3, 4]})
+            steps.append({"kind": "struct", "what": "ce_reorder", "h": 0, "targets": list(order), "nocheck": True})
+            if prop in ("C04", "C05"):
+                calls_ = [{"kind": "measure", "targets": [t], "entry": "ce", "h": 0, "sep": True, "destructive": d_} for t in (1, 4) for d_ in (True, False)]
+            elif prop == "C06":
+                calls_ = [{"kind": "kraus", "targets": [t], "entry": "ce", "h": 0, "ops": [mj(K) for K in rand_kraus(rs, DIM[t], 2)]} for t in (1, 3, 4)]
+            else:
+                calls_ = [{"kind": "povm", "targets": [t], "entry": "ce", "h": 0, "ops": [mj(K) for K in rand_kraus(rs, DIM[t], 2)], "destructive": False} for t in (1, 4)]
+            for c in calls_:
+                progs.append({"seed": 7, "contraction": True, "focus": prop, "cell": f"{c['kind']}:|ce|t{c['targets'][0]}|ps-rotated{order}|matrix-mixed",
+                              "setup": SETUP, "steps": steps + [c]})
+    if prop == "C05":
+        # continuation after a measurement that shrinks (but does not empty) a product space: the survivor
+        # Fock space is resized by the next operation
+        rs = np.random.RandomState(9200)
+        for des in (True, False):
+            for en in ("state", "ce"):
+                steps = [superpose(rs, 0), superpose(rs, 2), superpose(rs, 3),
+                         {"kind": "struct", "what": "ce_combine", "h": 0, "targets": [0, 2, 3]},
+                         {"kind": "kraus", "targets": [0, 2, 3], "entry": "ce", "h": 0, "ops": [mj(rand_unitary(rs, 12))]},
+                         {"kind": "struct", "what": "ce_reorder", "h": 0, "targets": [0, 2, 3]},
+                         {"kind": "measure", "targets": [0], "entry": "ce", "h": 0, "sep": True, "destructive": des},
+                         with_entry({"kind": "op", "targets": [2], "gate": "Creation"}, en),
+                         {"kind": "op", "gate": "CX", "targets": [3, 1], "entry": "ce", "h": 0}]
+                progs.append({"seed": 7, "contraction": True, "focus": prop, "cell": f"measure-then-Creation|{en}|t0 then t2|ps|vector|des={des}", "setup": SETUP, "steps": steps})
     if prop == "C03":
         # three members at density-matrix level, storage rotated cyclically, then a two-operand gate
         rs = np.random.RandomState(9000)
@@ -431,6 +502,7 @@ def special_programs(prop):
                     steps.append({"kind": "struct", "what": "expand", "entry": "ce", "h": 0, "targets": [1]})
                 else:
                     steps.append({"kind": "kraus", "targets": [4], "entry": "state", "ops": [mj(K) for K in rand_kraus(rs, 3, 2)]})
+                steps.append({"kind": "struct", "what": "ce_reorder", "h": 0, "targets": [1, 3, 4]})
                 steps.append({"kind": "struct", "what": "ce_reorder", "h": 0, "targets": list(order), "nocheck": True})
                 for g, T in (("CX", [1, 3]), ("CX", [3, 1]), ("CZ", [1, 3])):
                     progs.append({"seed": 7, "contraction": True, "focus": prop, "cell": f"op:{g}|ce|t{T[0]}+{T[1]}|ps-rotated{order}|{level}",
